@@ -27,7 +27,7 @@ m = {
     "setup_cmd": "./check --setup",
     "hooks": {
         "guard": "LHASA_VERIF",
-        "enable": "no guarded code in /repo: the harness compiles /repo's sources itself with -DLHASA_VERIF and (for allocation tracing) -include harness/c/verif_alloc.h",
+        "enable": "no guarded code in /repo (no hook commits): the harness compiles /repo's unmodified sources itself; -DLHASA_VERIF only switches on code in the harness's own drivers (harness/c), and allocation tracing / failure injection is done at link time (-Wl,--wrap=malloc,calloc,realloc,strdup,free,fopen,fclose with harness/c/verif_alloc.c)",
         "baseline_off_cmd": "make -C /repo check",
         "source_commits": [],
         "add_only": True,
